@@ -363,10 +363,10 @@ func ecdsaCase[P curves.Point[P, B, S], B algebra.PrimeFieldElement[B], S algebr
 	}
 	ar, as, av := r, baseS, ip(baseV)
 	aQ, apk, am := Q, pk, msg
-	alt := rapid.SampledFrom([]string{
+	alt := flatPick(t, "alt", []string{
 		"msg", "r+1", "r-1", "r-bit", "r-random", "s+1", "s-1", "s-bit", "s-random", "s-double", "swap-r-s",
 		"v^1-keep-s", "v^2", "v^3", "neg-s-keep-v", "pk-other", "pk-neg", "pk+G", "pk-double",
-	}).Draw(t, "alt")
+	})
 	add := func(x *big.Int, k int64) *big.Int { return new(big.Int).Mod(new(big.Int).Add(x, big.NewInt(k)), n) }
 	bitflip := func(x *big.Int) *big.Int {
 		i := rapid.IntRange(0, n.BitLen()-1).Draw(t, "bitAt")
